@@ -273,8 +273,20 @@ mutual
           | .ok rest' => .ok (k' :: after ++ rest')
 end
 
+mutual
+  /-- nodes and characters of texts and tails: a bound on the steps `finalize` takes on the tree -/
+  def weight : Tree → Nat
+    | .node _ p ks => 1 + (strOf p.text).length + (strOf p.tail).length + weightL ks
+  def weightL : List Tree → Nat
+    | [] => 0
+    | t :: ts => weight t + weightL ts
+end
+
+/-- `finalize`: the recursion of `undo_element` needs one unit of fuel per nesting level, per sibling and per
+placeholder character of a text, so the fuel is taken from the nodes and the characters of the tree and of the
+stored elements -/
 def undoTree (st : PhSt) (de : List (Nat × Tree)) (t : Tree) : Except UErr Tree :=
-  match undoElement (4 * Tree.size t + 4 * (st.heap.map Tree.size).sum + 64) st de t with
+  match undoElement (4 * (weight t + (st.heap.map weight).sum + (de.map (fun x => weight x.2)).sum) + 64) st de t with
   | .error e => .error e
   | .ok (t', _) => .ok t'
 
